@@ -1183,6 +1183,9 @@ def c13_tree_cases(exe, tier, seed, verdict):
             ent = rnd.choice(["std", "stdcb", "stdcb", "readdirs3"])
             i = len(cases)
             R = ROOT + "/b%d" % (i % 16)
+            if i % 5 == 4:
+                # a deep tree: the reported path is the whole path, however long (260 .. 1500 bytes here)
+                R += ("/" + "deep-directory-name-of-fifty-bytes-%014d" % i) * [5, 9, 28][(i // 5) % 3]
             # the parsing options change nothing about a malformed line: with each of them the same code and location
             shape = Shape("std", opts=["", "JOIN_SAME_ENTRIES=1", "PYTHON_STYLE=1", "JOIN_SAME_ENTRIES=0", "JOIN_SAME_ENTRIES=1;PYTHON_STYLE=1"][i % 5])
             s, paths = materialise(t, shape, R, contents={f: content})
